@@ -59,6 +59,39 @@ pub proof fn lemma_enc_idx_intro(idx: Seq<int>, ks: Seq<int>, t: (u32, u32, u32,
     ensures enc_idx_ok(idx, ks, t, w, p, p1),
 {
 }
+// Enc's index sequence is a FUNCTION of the tuple: two sequences satisfying enc_idx_ok for the same (tuple, W, P, P1) are equal.
+// (So "the xor over an index sequence satisfying enc_idx_ok" -- the postcondition of enc_into and rebuild_source_symbol_into -- denotes one value.)
+pub proof fn lemma_pi_pos_unique(b1: int, a1: int, p: int, p1: int, from: int, k1: int, k2: int)
+    requires pi_pos_ok(b1, a1, p, p1, from, k1), pi_pos_ok(b1, a1, p, p1, from, k2),
+    ensures k1 == k2,
+{
+    reveal(pi_pos_ok);
+    if k1 < k2 { assert(orbit(b1, a1, p1, k1) >= p); }
+    if k2 < k1 { assert(orbit(b1, a1, p1, k2) >= p); }
+}
+pub proof fn lemma_enc_idx_unique(i1: Seq<int>, k1: Seq<int>, i2: Seq<int>, k2: Seq<int>, t: (u32, u32, u32, u32, u32, u32), w: int, p: int, p1: int)
+    requires enc_idx_ok(i1, k1, t, w, p, p1), enc_idx_ok(i2, k2, t, w, p, p1), t.3 <= 3,
+    ensures i1 == i2, k1 == k2,
+{
+    let d = t.0 as int; let d1 = t.3 as int;
+    assert forall |s: int| 0 <= s < d1 implies k1[s] == k2[s] by {
+        assert(at2(i1, d, 0) == i1[d + 0] && at2(i2, d, 0) == i2[d + 0]);
+        lemma_pi_pos_unique(t.5 as int, t.4 as int, p, p1, 0, k1[0], k2[0]);
+        if s >= 1 {
+            assert(at2(i1, d, 1) == i1[d + 1] && at2(i2, d, 1) == i2[d + 1]);
+            lemma_pi_pos_unique(t.5 as int, t.4 as int, p, p1, k1[0] + 1, k1[1], k2[1]);
+            if s >= 2 {
+                assert(at2(i1, d, 2) == i1[d + 2] && at2(i2, d, 2) == i2[d + 2]);
+                lemma_pi_pos_unique(t.5 as int, t.4 as int, p, p1, k1[1] + 1, k1[2], k2[2]);
+            }
+        }
+    }
+    assert(k1 =~= k2);
+    assert forall |q: int| 0 <= q < i1.len() implies i1[q] == i2[q] by {
+        if q >= d { assert(at2(i1, d, q - d) == i1[q] && at2(i2, d, q - d) == i2[q]); }
+    }
+    assert(i1 =~= i2);
+}
 // xor of the symbols at the first n indices
 pub open spec fn acc(v: Seq<Seq<u8>>, idx: Seq<int>, n: nat) -> Seq<u8>
     decreases n,
